@@ -88,6 +88,15 @@ var txStmts = []*sqlair.Statement{
 	// a statement whose SQL depends on the argument shape (slice length)
 	// (the number of parameters is the same for every shape: q+1 integers and 3-q strings)
 	sqlair.MustPrepare("SELECT &Person.* FROM person WHERE id IN ($IntSlice[:]) OR name IN ($StrSlice[:])", Person{}, IntSlice{}, StrSlice{}),
+	// statements whose text begins with a keyword of transaction control or of schema change: to sqlair they are
+	// statements like any other (it is the database that gives them a meaning)
+	sqlair.MustPrepare("ROLLBACK TO SAVEPOINT sp"),
+	sqlair.MustPrepare("SAVEPOINT sp"),
+	sqlair.MustPrepare("COMMIT AND CHAIN"),
+	sqlair.MustPrepare("ALTER TABLE person ADD COLUMN email TEXT"),
+	sqlair.MustPrepare("drop index if exists i"),
+	sqlair.MustPrepare("END; BEGIN"),
+	sqlair.MustPrepare("RELEASE sp"),
 }
 
 // the context the transaction is begun with: TX.Query must not inherit it (a nil context given to
@@ -98,6 +107,9 @@ func txArgs(kind int, r *rng) []any {
 	if kind == 3 {
 		sl, ss := twoSlices(r.intn(3))
 		return []any{sl, ss}
+	}
+	if kind > 3 {
+		return nil
 	}
 	return []any{Person{ID: 7, Name: "n"}}
 }
@@ -111,6 +123,8 @@ func newTxWorld(r *rng, viol func(prop, name, detail string)) *txWorld {
 			if i == 3 {
 				var ps []Person
 				w.db.Query(context.Background(), st, txArgs(3, r)...).GetAll(&ps)
+			} else if i > 3 {
+				w.db.Query(context.Background(), st).Run()
 			} else {
 				w.db.Query(context.Background(), st, Person{ID: i + 1, Name: "pre"}).Run()
 			}
@@ -179,6 +193,7 @@ func (w *txWorld) events(marker int) []string {
 				w.viol("C09", "tx-executed-a-statement-prepared-for-another-shape", d)
 				w.viol("C12", "tx-executed-a-statement-prepared-for-another-shape", d)
 				w.viol("C16", "tx-executed-a-statement-prepared-for-another-shape", d)
+				w.viol("C15", "tx-executed-a-statement-prepared-for-another-shape", d)
 			}
 			if marker == -1 {
 				// the query was built with a nil context: the driver must see context.Background()
